@@ -19,12 +19,14 @@ import (
 var errUnder = errors.New("underlying write failed")
 
 type under struct {
-	script []int // per call: 0 full, 1 short, 2 fail
+	script []int // per call of the wrapped writer: 0 full, 1 short, 2 fail
 	call   int
 	viaSW  int
+	total  int   // bytes this writer reported, over all its calls
+	last   error // error of its latest call
 }
 
-func (u *under) do(n int) (int, error) {
+func (u *under) do(n int) (m int, err error) {
 	b := 0
 	if u.call < len(u.script) {
 		b = u.script[u.call]
@@ -32,11 +34,15 @@ func (u *under) do(n int) (int, error) {
 	u.call++
 	switch b {
 	case 1:
-		return n / 2, nil
+		m = n / 2
 	case 2:
-		return 1, errUnder
+		m, err = 1, errUnder
+	default:
+		m = n
 	}
-	return n, nil
+	u.total += m
+	u.last = err
+	return m, err
 }
 
 func (u *under) Write(p []byte) (int, error) { return u.do(len(p)) }
@@ -45,29 +51,59 @@ type underSW struct{ under }
 
 func (u *underSW) WriteString(s string) (int, error) { u.viaSW++; return u.do(len(s)) }
 
-const payload = "abcd"
+const smallPayload = "abcd"
+
+var bigPayload = strings.Repeat("0123456789abcdef", 70000/16)
 
 var maxCalls = 3
 
+// manyCalls > 0: a fixed long sequence of full writes (wide but shallow scenario)
+var manyCalls = 0
+
+func bodyMany(n int) func(c *vsched.Ctx) {
+	inner := body(true, true)
+	return func(c *vsched.Ctx) {
+		manyCalls = n
+		defer func() { manyCalls = 0 }()
+		inner(c)
+	}
+}
+
 func body(withConsumer, withClose bool) func(c *vsched.Ctx) {
 	return func(c *vsched.Ctx) {
-		ncalls := vsched.Choose(maxCalls+1, "number-of-calls")
+		many := manyCalls
+		ncalls := manyCalls
+		if manyCalls == 0 {
+			ncalls = vsched.Choose(maxCalls+1, "number-of-calls")
+		}
 		sw := vsched.Choose(2, "underlying-has-WriteString")
+		payload := smallPayload
+		if manyCalls == 0 && vsched.Choose(2, "payload-size") == 1 {
+			payload = bigPayload // larger than any internal chunking threshold one might introduce (64 KiB)
+		}
 		kinds := make([]int, ncalls) // 0 Write, 1 WriteString
 		script := make([]int, ncalls)
 		var desc []string
 		for i := 0; i < ncalls; i++ {
-			k := vsched.Choose(6, "call")
+			k := 0
+			if many == 0 {
+				k = vsched.Choose(6, "call")
+			} else {
+				k = (i % 2) * 3 // alternate Write / WriteString, all full
+			}
 			kinds[i], script[i] = k/3, k%3
 			desc = append(desc, []string{"Write", "WriteString"}[k/3]+"/"+[]string{"full", "short", "fail"}[k%3])
 		}
 		var pw *ioutil.ProgressWriter
 		var usw *underSW
+		var uw *under
 		if sw == 1 {
 			usw = &underSW{under{script: script}}
+			uw = &usw.under
 			pw = ioutil.NewProgressWriter(usw)
 		} else {
-			pw = ioutil.NewProgressWriter(&under{script: script})
+			uw = &under{script: script}
+			pw = ioutil.NewProgressWriter(uw)
 		}
 		status := pw.Status()
 		// prefix sums = Size() after each completed call
@@ -79,6 +115,7 @@ func body(withConsumer, withClose bool) func(c *vsched.Ctx) {
 		var writer *vsched.Thread
 		writer = vsched.GoNamed("writer", func() {
 			for i := 0; i < ncalls; i++ {
+				before, callsBefore := uw.total, uw.call
 				vsched.Mark("inwrite", 1)
 				var n int
 				var err error
@@ -88,15 +125,16 @@ func body(withConsumer, withClose bool) func(c *vsched.Ctx) {
 					n, err = pw.WriteString(payload)
 				}
 				vsched.Mark("inwrite", 0)
-				wantN, wantErr := len(payload), error(nil)
-				switch script[i] {
-				case 1:
-					wantN = len(payload) / 2
-				case 2:
-					wantN, wantErr = 1, errUnder
+				// what the wrapped writer reported during this call (however many times it was called)
+				// (the statement is about Size() and Status(); which error value Write hands back is not
+				// part of it, so only the byte count is compared)
+				wantN := uw.total - before
+				_ = err
+				if uw.call == callsBefore {
+					vsched.Fail(fmt.Sprintf("C19: call %d (%s) never reached the wrapped writer", i, desc[i]))
 				}
-				if n != wantN || err != wantErr {
-					vsched.Fail(fmt.Sprintf("C19: call %d (%s) returned (%d,%v), the wrapped writer reported (%d,%v)", i, desc[i], n, err, wantN, wantErr))
+				if n != wantN {
+					vsched.Fail(fmt.Sprintf("C19: call %d (%s) returned n=%d, the wrapped writer reported %d bytes during the call", i, desc[i], n, wantN))
 				}
 				total += n
 				sums[total] = true
@@ -164,7 +202,11 @@ func body(withConsumer, withClose bool) func(c *vsched.Ctx) {
 					return fmt.Sprintf("C19: last value received %v, final total %d (calls %v)", received, total, desc)
 				}
 			}
-			c.Outcome(fmt.Sprintf("sw=%d calls=%s recv=%v", sw, strings.Join(desc, ","), received))
+			if many > 0 {
+				c.Outcome(fmt.Sprintf("received=%d", len(received)))
+				return ""
+			}
+			c.Outcome(fmt.Sprintf("sw=%d big=%v calls=%s recv=%v", sw, len(payload) > 100, strings.Join(desc, ","), received))
 			return ""
 		})
 	}
@@ -180,6 +222,8 @@ func main() {
 	scens := []sdrive.Scenario{
 		{Name: "writer+consumer+close", Props: []string{"C19"}, About: "all call sequences <= 3 x {Write,WriteString} x {full,short,fail} x {StringWriter or not}; consumer draining Status() at every possible pace; Close",
 			Quick: P(0, -1), Body: body(true, true), MinOutcomes: 50, NoSleep: true},
+		{Name: "many-writes-late-consumer", Props: []string{"C19"}, About: "40 full writes, consumer draining at its own pace, Close: wide but shallow (delay-bounded) - reaches thresholds a 3-call scenario cannot",
+			Quick: sdrive.Plan{Delay: true, Bounds: []int{0, 1, 2}}, Thorough: sdrive.Plan{Delay: true, Bounds: []int{0, 1, 2, 3}}, Body: bodyMany(40), MinOutcomes: 2, NoSleep: true},
 		{Name: "writer-alone", Props: []string{"C19"}, About: "nobody ever receives: no Write may block",
 			Quick: P(-1), Body: body(false, false), MinOutcomes: 50, NoSleep: true},
 		{Name: "writer-alone+close", Props: []string{"C19"}, About: "nobody receives and Close is called: only Close may block",
